@@ -141,3 +141,27 @@ Lemma pm_push_app F G x dx : pm_push (F ++ G) x dx = pm_push F x dx ++ pm_push G
 (* peval respects pointwise-equal coefficient lists *)
 Lemma peval_veq p q x : veq p q -> peval p x == peval q x.
 Proof. induction 1 as [|a b p q Hab _ IH]; cbn [peval]; [reflexivity|]. rewrite Hab, IH. reflexivity. Qed.
+
+Lemma derivative_laws p q a n x :
+  peval (padd p q) x == peval p x + peval q x /\ peval (pscale a p) x == a * peval p x /\
+  peval (pmul p q) x == peval p x * peval q x /\ peval (ppow p n) x == qpow (peval p x) (Z.of_nat n) /\
+  D (padd p q) x == D p x + D q x /\ D (pscale a p) x == a * D p x /\
+  D (pmul p q) x == D p x * peval q x + peval p x * D q x /\
+  D (ppow p (S n)) x == Qnat (S n) * peval (ppow p n) x * D p x.
+Proof.
+  repeat split; [apply peval_padd|apply peval_pscale|apply peval_pmul|apply peval_ppow|apply D_padd|apply D_pscale|apply D_pmul|apply D_ppow].
+Qed.
+
+(* boolean pointwise equality, for closed examples *)
+Fixpoint veqb (a b : vec) : bool :=
+  match a, b with
+  | [], [] => true
+  | x :: a', y :: b' => Qeq_bool x y && veqb a' b'
+  | _, _ => false
+  end.
+Lemma veqb_sound a : forall b, veqb a b = true -> veq a b.
+Proof.
+  induction a as [|x a IH]; intros [|y b] H; cbn [veqb] in H; try discriminate; constructor.
+  - apply Qeq_bool_iff. apply andb_prop in H. tauto.
+  - apply IH. apply andb_prop in H. tauto.
+Qed.
